@@ -151,6 +151,7 @@ func w6aRun(s *simrt.Sim, script any, prop string) {
 	items := map[uint64]*w6aItemInfo{}
 	var order []uint64 // ids in the order they reached the transport
 	writeCalls := 0
+	inWrite := 0
 	var callBegin []int64
 	type enqRec struct {
 		infos    []*w6aItemInfo
@@ -166,6 +167,13 @@ func w6aRun(s *simrt.Sim, script any, prop string) {
 		call := writeCalls
 		writeCalls++
 		begin := next()
+		// the transport is written by one call at a time (Client serialises its
+		// WriteFn/WriteManyFn the same way); overlapping calls interleave bytes
+		if inWrite > 0 {
+			s.Violate("C12", "concurrent-write", "two transport writes in progress at once", "write call %d began while another write call was still in progress", call)
+		}
+		inWrite++
+		defer func() { inWrite-- }()
 		callBegin = append(callBegin, begin)
 		if closeReturn != 0 {
 			s.Violate("C12", "write-after-close", "write after close returned", "write call %d began after close() returned", call)
@@ -212,10 +220,17 @@ func w6aRun(s *simrt.Sim, script any, prop string) {
 		WriteManyFn:  func(its ...queue.Item) error { return doWrite(its...) },
 	}, sc.InitCap)
 	runDone := make(chan struct{})
-	s.Go(func() {
-		wr.run(time.Duration(sc.WriteDelayUs)*time.Microsecond, sc.MaxInFrame, time.Duration(sc.ShrinkMs)*time.Millisecond, sc.TimerMode)
+	if sc.TimerMode && sc.WriteDelayUs > 0 {
+		// as Client.startWriter does: in timer mode run() only switches the mode and
+		// returns, and it is called before anything can be enqueued
+		wr.run(time.Duration(sc.WriteDelayUs)*time.Microsecond, sc.MaxInFrame, time.Duration(sc.ShrinkMs)*time.Millisecond, true)
 		close(runDone)
-	})
+	} else {
+		s.Go(func() {
+			wr.run(time.Duration(sc.WriteDelayUs)*time.Microsecond, sc.MaxInFrame, time.Duration(sc.ShrinkMs)*time.Millisecond, false)
+			close(runDone)
+		})
+	}
 	closed := false
 	closeWasFlush := false
 	doClose := func(flush bool) {
@@ -305,6 +320,18 @@ func w6aRun(s *simrt.Sim, script any, prop string) {
 	s.Pause()
 	// let the writer drain (delays, stalls, shrink timers)
 	s.Sleep(3 * time.Second)
+	if !closed && !failed {
+		// bounded liveness: the connection is open, nothing failed, three simulated
+		// seconds (far beyond any write delay or stall of the script) passed since the
+		// last enqueue: everything accepted must have reached the transport by itself,
+		// not only through the flush of a later close
+		for _, in := range items {
+			if in.accepted && !in.written {
+				s.Violate("C12", "stuck", "accepted item not written although the connection stayed open", "item %x accepted (ev %d) still unwritten 3 s after the last enqueue (timer mode %v, write delay %dus)", in.id, in.ret, sc.TimerMode, sc.WriteDelayUs)
+				break
+			}
+		}
+	}
 	if !closed {
 		doClose(true)
 	}
@@ -438,6 +465,7 @@ func init() {
 		NewScript: func() any { return &w6aScript{} },
 		Run:       w6aRun,
 		Shrinks:   w6aShrinks,
+		Stall:     func(prop string) bool { return true },
 		Nontrivial: func(prop string, r *simrt.Result) bool {
 			if prop == "C37" {
 				return r.Probes["slow"] > 0 || r.Probes["near_limit"] > 0
